@@ -57,6 +57,18 @@ def table(tier):
         m = {"meta": dict({"default_must_getter": merged}, **({"pkg": "main"} if d2 is None else {})), "services": dict(base["services"])}
         m["__files__"] = [base, over]
         rows.append(("two-files-default", m))
+    for dmg, names in itertools.product([True, False, None], [("alpha", "beta", "gamma"), ("zeta", "eta", "beta"), ("b", "a", "c")]):
+        for opp_first in (True, False):
+            n1, n2, n3 = names
+            svcs = {n1: {"constructor": "NewA", "getter": "Get" + n1.capitalize(), "must_getter": (not dmg) if dmg is not None else True},
+                    n2: {"constructor": "NewA", "getter": "Get" + n2.capitalize()},
+                    n3: {"constructor": "NewA", "getter": "Get" + n3.capitalize(), "must_getter": bool(dmg)}}
+            if not opp_first:
+                svcs = dict(reversed(list(svcs.items())))
+            cfg = {"services": svcs}
+            if dmg is not None:
+                cfg["meta"] = {"default_must_getter": dmg}
+            rows.append(("table-several-services", cfg))
     # getters that differ only in letter case are different Go identifiers: both services get their methods
     for g1, g2 in [("getDB", "GetDB"), ("GetX", "GETX"), ("getx", "getX"), ("Db", "DB")]:
         for mg in (None, True):
